@@ -74,25 +74,26 @@ func duringRegistration(run *ev.Run) {
 		go func() { defer wg.Done(); addErr = R.AddNetworkInstance(late) }()
 		time.Sleep(time.Duration(200+r.Intn(2000)) * time.Microsecond)
 		// the reader resumes
+		joined := make(chan struct{})
+		go func() { wg.Wait(); close(joined) }()
 		drained := make(chan struct{})
 		go func() {
 			defer close(drained)
 			for {
 				select {
 				case <-msgCh:
-				case <-time.After(50 * time.Millisecond):
+				case <-joined:
 					return
 				}
 			}
 		}()
-		joined := make(chan struct{})
-		go func() { wg.Wait(); close(joined) }()
 		select {
 		case <-joined:
 		case <-time.After(drv.Watchdog):
 			ev.NoteWatchdog("hook registration / instance creation behind a stalled reader")
 			run.Inconclusive(caseID + ": registration, creation or the reader did not return within the watchdog")
 			run.Eval(1)
+			close(stopCh)
 			return
 		}
 		<-drained
